@@ -48,6 +48,10 @@ def check(ctx, report):
     opp = {c.name for c in ctx.model.all_classes if getattr(getattr(c, 'module', None), 'relpath', '').startswith(
         ('cryptoparser/tls/mysql.py', 'cryptoparser/tls/rdp.py', 'cryptoparser/tls/openvpn.py', 'cryptoparser/tls/ldap.py', 'cryptoparser/tls/postgresql.py'))}
     flag_keyed_optionals(ctx, report, RULE='C09.R11', only=opp)
+    # capability / status / protocol flag words are the OR of their members, whatever iterable holds them (shared with C11.R4)
+    from .c11 import flags_and_timestamps
+    report.rule('C09.R12', 'flag words (MySQL capabilities and status, RDP flags and protocols): the OR of the members, read back as the members')
+    flags_and_timestamps(ctx, report, R4='C09.R12', R5='C09.R12')
 
 
 def find_objs(v, out):
